@@ -7,6 +7,7 @@ pub mod adapt;
 pub mod c01;
 pub mod c02;
 pub mod c03;
+pub mod c04;
 pub mod c05;
 pub mod c06;
 pub mod c07;
@@ -318,6 +319,7 @@ pub fn lean_checks() -> Vec<CheckDef> {
         CheckDef { name: "c01", run: c01::run, replay: c01::replay },
         CheckDef { name: "c02", run: c02::run, replay: c02::replay },
         CheckDef { name: "c03", run: c03::run, replay: c03::replay },
+        CheckDef { name: "c04", run: c04::run, replay: c04::replay },
         CheckDef { name: "c05", run: c05::run, replay: c05::replay },
         CheckDef { name: "c06", run: c06::run, replay: c06::replay },
         CheckDef { name: "c07", run: c07::run, replay: c07::replay },
@@ -341,6 +343,9 @@ pub fn cli_main(checks: Vec<CheckDef>) -> i32 {
     }
     let mode = args[1].as_str();
     let name = args[2].as_str();
+    if mode == "canary" {
+        return c04::canary(name);
+    }
     let Some(def) = checks.iter().find(|c| c.name == name) else {
         eprintln!("unknown check {name}");
         return 2;
